@@ -273,4 +273,73 @@ theorem c07y_cookware_empty_name_qty_piece (T A rest : List Tok) (cs : CharSpec)
   rw [hrun']
   exact (c07p_indep_fields (Indep.cookwareTail ..) _).1
 
+/-- **an ingredient with an alias but without name** (`@|x{}`, `@ |x{}`; COMPONENT_ALIAS on, the first `|` of the
+    name tokens at index `i`, the name tokens before it blank, plain modifier tokens, blank braces): the alias errors
+    (`aliasEvs`), then `empty-name:ingredient` labelled with the span of the blank text before the `|`, then one
+    `duplicate-modifier` per repeated modifier token; then the ingredient. -/
+theorem c07y_ingredient_empty_name_alias_piece (T A rest : List Tok) (cs : CharSpec) (e : Ext) (tm : Tok)
+    (ms nameT : List Tok) (tob : Tok) (Q : List Tok) (tcb : Tok) (i : Nat)
+    (hT : T = A ++ (c07p_comp tm ms nameT tob Q tcb ++ rest)) (hw : WF T)
+    (sh : PlShape e .at tm ms nameT tob Q tcb rest) (hs : SimpleMods ms)
+    (hQ : ∀ t ∈ Q, isPadK t = true)
+    (he : e.has Gen.EXT_COMPONENT_ALIAS = true) (hi : nameT.findIdx? (fun t => t.kind == .or) = some i)
+    (hname : (buildText (offAt T (A.length + 1 + ms.length)) (nameT.take i)).isTextEmpty cs = true) :
+    PlPieceAt (α := α) T cs e A ⟨c07p_comp tm ms nameT tob Q tcb, fun evs =>
+      evs = aliasEvs "ingredient" nameT i cs ++
+        [.error ⟨.error, .parse, "empty-name:ingredient",
+          [(buildText (offAt T (A.length + 1 + ms.length)) (nameT.take i)).span]⟩] ++ dupEvs ms ++
+        [.ingredient ⟨⟨simpleFlags ms (offAt T (A.length + 1)), none,
+          buildText (offAt T (A.length + 1 + ms.length)) (nameT.take i), aliasRes nameT i cs, none, none⟩,
+        ⟨offAt T A.length, offAt T (A.length + (c07p_comp tm ms nameT tob Q tcb).length)⟩⟩]⟩ := by
+  apply c07p_piece_of_ingredient T A _ rest cs e hT hw tm _ rfl sh.hk
+  intro s h1 h2 h3 h4 h5
+  subst h1 h2 h3
+  have hrun := c07p_ingredient_run s A tm ms nameT tob Q tcb rest sh hT h5
+  have hbody := c07p_body_qty_none nameT tob Q tcb hQ
+  have ht := c07p_ingredientTail_noqty_blank (α := α) (offAt s.toks A.length)
+    (offAt s.toks (A.length + (c07p_comp tm ms nameT tob Q tcb).length))
+    (offAt s.toks (A.length + 1)) (offAt s.toks (A.length + 1 + ms.length)) ms (c07p_body nameT tob Q tcb) none
+    ({ s with cur := A.length + (c07p_comp tm ms nameT tob Q tcb).length } : BP α) _ _ _
+    (parseAlias_sep "ingredient" nameT _ i _ he hi) hname hbody hs
+  unfold Sat at ht
+  rw [← hrun] at ht
+  obtain ⟨hpu, hr⟩ := ht
+  refine ⟨_, _, hr, hpu, ?_, rfl⟩
+  rw [hrun]
+  exact (c07p_indep_fields (Indep.ingredientTail ..) _).1
+
+/-- **a cookware item with an alias but without name** (`#|x{}`): as for the ingredient, with
+    `cookware-recipe-modifier` after the duplicate-modifier errors iff a `@` is among the modifiers. -/
+theorem c07y_cookware_empty_name_alias_piece (T A rest : List Tok) (cs : CharSpec) (e : Ext) (tm : Tok)
+    (ms nameT : List Tok) (tob : Tok) (Q : List Tok) (tcb : Tok) (i : Nat)
+    (hT : T = A ++ (c07p_comp tm ms nameT tob Q tcb ++ rest)) (hw : WF T)
+    (sh : PlShape e .hash tm ms nameT tob Q tcb rest) (hs : SimpleMods ms)
+    (hQ : ∀ t ∈ Q, isPadK t = true)
+    (he : e.has Gen.EXT_COMPONENT_ALIAS = true) (hi : nameT.findIdx? (fun t => t.kind == .or) = some i)
+    (hname : (buildText (offAt T (A.length + 1 + ms.length)) (nameT.take i)).isTextEmpty cs = true) :
+    PlPieceAt (α := α) T cs e A ⟨c07p_comp tm ms nameT tob Q tcb, fun evs =>
+      evs = aliasEvs "cookware" nameT i cs ++
+        [.error ⟨.error, .parse, "empty-name:cookware",
+          [(buildText (offAt T (A.length + 1 + ms.length)) (nameT.take i)).span]⟩] ++ dupEvs ms ++
+        recipeModEvs ms ++
+        [.cookware ⟨⟨simpleFlags ms (offAt T (A.length + 1)),
+          buildText (offAt T (A.length + 1 + ms.length)) (nameT.take i), aliasRes nameT i cs, none, none⟩,
+        ⟨offAt T A.length, offAt T (A.length + (c07p_comp tm ms nameT tob Q tcb).length)⟩⟩]⟩ := by
+  apply c07p_piece_of_cookware T A _ rest cs e hT hw tm _ rfl sh.hk
+  intro s h1 h2 h3 h4 h5
+  subst h1 h2 h3
+  have hrun := c07p_cookware_run s A tm ms nameT tob Q tcb rest sh hT h5
+  have hbody := c07p_body_qty_none nameT tob Q tcb hQ
+  have ht := c07y_cookwareTail_noqty_blank (α := α) (offAt s.toks A.length)
+    (offAt s.toks (A.length + (c07p_comp tm ms nameT tob Q tcb).length))
+    (offAt s.toks (A.length + 1)) (offAt s.toks (A.length + 1 + ms.length)) ms (c07p_body nameT tob Q tcb) none
+    ({ s with cur := A.length + (c07p_comp tm ms nameT tob Q tcb).length } : BP α) _ _ _
+    (parseAlias_sep "cookware" nameT _ i _ he hi) hname hbody hs
+  unfold Sat at ht
+  rw [← hrun] at ht
+  obtain ⟨hpu, hr⟩ := ht
+  refine ⟨_, _, hr, hpu, ?_, rfl⟩
+  rw [hrun]
+  exact (c07p_indep_fields (Indep.cookwareTail ..) _).1
+
 end Cook
